@@ -580,6 +580,7 @@ type WlRun struct {
 	Err      string
 	WideNote string // wide.go: whether the pinned schedule reached its window
 	// miss3.go
+	Stuck        []string    // the watchdog had to release a paced snapshot (HurryUp) because the workload made no progress
 	RestartPanic string      // a clean Close + NewChainExt inside the history panicked with this message
 	Closed       []closedDir // directories left behind by the clean shutdowns inside the history
 }
@@ -615,6 +616,33 @@ func runWorkload(root string, base *Base, w Workload, only int) *WlRun {
 		s.point(name)
 	})
 	defer vhook.Set(nil)
+	// watchdog: with the writing-time target at 1 h a paced snapshot waits until it is aborted or hurried. An operation that is
+	// supposed to abort it but waits for it instead would block the workload for an hour: after 8 s without a new point and
+	// without a new op the snapshot is released with HurryUp (reported as workload-stuck; everything else is judged as usual)
+	stopDog := make(chan bool)
+	defer close(stopDog)
+	go func() {
+		last, lastT := -1, time.Now()
+		for {
+			select {
+			case <-stopDog:
+				return
+			case <-time.After(500 * time.Millisecond):
+			}
+			s.mu.Lock()
+			n, opi := len(s.hits)*1000+s.opIdx, s.opIdx
+			s.mu.Unlock()
+			if n != last {
+				last, lastT = n, time.Now()
+				continue
+			}
+			if time.Since(lastT) > 8*time.Second && utxo.UTXO_WRITING_TIME_TARGET != 0 {
+				wr.Stuck = append(wr.Stuck, fmt.Sprintf("op %d (%s %s)", opi, w.Ops[opi].K, w.Ops[opi].Name))
+				k.Ch.Unspent.HurryUp() // the driver is inside an op (it has not moved for 8 s): k is not being replaced
+				lastT = time.Now()
+			}
+		}
+	}()
 	saveDone := func() bool { return !s.saveAct && !s.fileLive }
 	closed := false
 	for i, op := range w.Ops {
